@@ -635,3 +635,91 @@ pub fn run_client_blocked_write(cfg: &ScenCfg, out: &mut RunOut) {
     rig.task.abort();
     kernel::settle();
 }
+
+/// The same on a serial line (flow control keeps the port from transmitting). variant 0: RTU client with a
+/// request it cannot write out; variant 1: RTU server with a reply it cannot write out, then shutdown.
+pub fn run_rtu_blocked_write(cfg: &ScenCfg, out: &mut RunOut) {
+    use super::client::{spawn_cmd, start_rtu_client, submit, Style, RTU_PATH};
+    use crate::model::client::{MState, Outcome};
+    use crate::model::pdu::Req;
+    let (dec_idx, decode) = pick_decode(&cfg.decode);
+    let chunk = chance(1, 2);
+    kernel::with(|w| {
+        w.cfg.chunk_reads = chunk;
+        w.cfg.short_writes = chunk;
+    });
+    let window = choose(8) as usize;
+    if cfg.variant == 0 {
+        serial::add_line(RTU_PATH, serial::OpenOutcome::Ok, true);
+        let mut rig = start_rtu_client(9600, (100 * MS, 100 * MS), decode, 4);
+        spawn_cmd(rig.channel.as_ref().unwrap(), 0, 0);
+        kernel::settle();
+        if !serial::is_open(RTU_PATH) {
+            out.violate("C13", "no_connection_established", "enabled serial channel did not open the port".into());
+            return;
+        }
+        serial::set_capacity(RTU_PATH, window);
+        let timeout = [10 * MS, 100 * MS, 1000 * MS][choose(3) as usize];
+        let req = Req::WriteRegs { start: 0, values: (0..20u16).collect() };
+        submit(rig.channel.as_ref().unwrap(), Style::Future, 0, &req, 1, timeout, &rig.comps);
+        kernel::settle();
+        kernel::count("fault_peer_stall");
+        kernel::advance(timeout * 3 + 50 * MS);
+        let what = choose(4);
+        let ch = rig.channel.clone().unwrap();
+        match what {
+            0 => spawn_cmd(&ch, 3, 0),
+            1 => spawn_cmd(&ch, 1, 0),
+            2 => {
+                drop(ch);
+                rig.channel = None;
+            }
+            _ => {}
+        }
+        kernel::advance(timeout * 3 + 2_000 * MS);
+        let comps = rig.comps.lock().unwrap().clone();
+        let states: Vec<MState> = rig.states.lock().unwrap().iter().map(|s| s.1).collect();
+        let desc = format!("rtu client, the line accepts {} bytes and nothing is taken off it, request of 49 bytes with time-out {} ms", window, timeout / MS);
+        if comps.len() != 1 {
+            out.violate("C10", "never_completed/blocked_write", format!("{}: completions {:?} (control action {}; port states {:?})", desc, comps, what, states));
+        } else if matches!(comps[0].2, Outcome::Ok(_)) {
+            out.violate("C04", "success_without_reply", format!("{}: the request succeeded although no reply was ever sent", desc));
+        }
+        if (what == 0 || what == 2) && !rig.task.is_finished() {
+            out.violate("C13", "shutdown_not_honoured/blocked_write", format!("{}: {} did not end the task (port states {:?})", desc, if what == 0 { "shutdown()" } else { "dropping every handle" }, states));
+        }
+        if what == 1 && states.last() != Some(&MState::Disabled) {
+            out.violate("C13", "disable_not_honoured/blocked_write", format!("{}: disable() was not honoured (port states {:?})", desc, states));
+        }
+        out.probe("rtu_client_blocked_write");
+        rig.task.abort();
+        kernel::settle();
+    } else {
+        serial::add_line(SRV_PATH, serial::OpenOutcome::Ok, true);
+        let rig = start_rtu_server(&units1(), (10 * MS, 40 * MS), decode);
+        kernel::settle();
+        serial::set_capacity(SRV_PATH, window);
+        // a read of 100 registers: a reply of 205 bytes that cannot leave
+        serial::line_write(SRV_PATH, &rtu_frame(1, &[4, 0, 0, 0, 100]));
+        kernel::advance(50 * MS);
+        kernel::count("fault_peer_stall");
+        {
+            let mut fut = Box::pin(rig.handle.shutdown());
+            let _ = kernel::block_on(fut.as_mut());
+        }
+        kernel::advance(5_000 * MS);
+        let desc = format!("rtu server, the line accepts {} bytes and nothing is taken off it, a 205-byte reply pending, then shutdown", window);
+        if !rig.task.is_finished() {
+            let key = "rtu_server_blocked_in_reply_write_ignores_shutdown";
+            if !out.known("C07", key) {
+                out.violate("C07", "shutdown_not_honoured/blocked_write", format!("{}: the server task is still running 5 s later", desc));
+            }
+        }
+        out.probe("rtu_server_blocked_write");
+        rig.task.abort();
+        kernel::settle();
+    }
+    out.ops_checked = 1;
+    out.nontrivial = Some(dec_idx as u64 | (window as u64) << 8 | (cfg.variant as u64) << 16 | (choose(1 << 16) as u64) << 24);
+    out.sample = Some(json!({"scenario": "serial line blocked for writing", "role": if cfg.variant == 0 { "client" } else { "server" }, "window": window}));
+}
